@@ -13,10 +13,13 @@
                    add_type: module_types.rs:300 with id = self.types.len()), so the map is always a dense
                    vector: it is represented by the list of its values in key order, [get id] = nth_error;
           types_map : HashMap<Types, TypeID> = association list, first structurally equal key wins.
-   ModuleTypes::new (module_types.rs:280) fills types_map by *iterating the HashMap types* — in an order that
-   differs from process to process — with HashMap::insert (an existing key keeps its place, the value is
-   overwritten: the last visited of several structurally equal types wins).  The order is an explicit
-   parameter [order] (a list of ids) of the model. *)
+   ModuleTypes::new (module_types.rs:278) fills types_map with HashMap::insert (an existing key keeps its place,
+   the value is overwritten: the last visited of several structurally equal types wins).  The order of the
+   insertions is an explicit parameter [order] (a list of ids) of [build_map] / [parse_types].
+   Since the repair of D11 ModuleTypes::new collects the keys of the HashMap, sorts them and inserts in
+   *ascending id order*: the order is [asc_ids (number of types)], and [parse_types_asc] is the parse of a type
+   section as the code performs it (of several structurally equal types the one with the highest id wins).
+   Before the repair it iterated the HashMap directly, in an order that differed from process to process. *)
 From Coq Require Import List NArith Bool.
 Import ListNotations.
 From Orca Require Import Flat.
@@ -70,6 +73,12 @@ Definition build_map (types : list ctype) (order : list N) : list (ctype * N) :=
 Definition parse_types (base : list (bool * list ctype)) (order : list N) : tstate :=
   let '(groups, types) := parse_groups base [] [] in
   mkTS groups types (build_map types order).
+
+(* the order ModuleTypes::new uses: ids.sort_unstable() on the keys 0 .. len-1 *)
+Definition asc_ids (n : nat) : list N := ids_from 0 n.
+Definition parse_types_asc (base : list (bool * list ctype)) : tstate :=
+  let '(groups, types) := parse_groups base [] [] in
+  mkTS groups types (build_map types (asc_ids (length types))).
 
 (* ModuleTypes::add_type(ty, id = self.types.len()) *)
 Definition add_type (ty : ctype) (st : tstate) : N * tstate :=
